@@ -44,6 +44,7 @@ NM == IF Size = 1 THEN 5 ELSE Len(AllMags)
 MCPool == [x \in 1..(NU * NM) |-> LET t == ((x - 1) \div NM) + 1 mm == ((x - 1) % NM) + 1
                                  IN [m |-> AllMags[mm].m, k |-> AllMags[mm].k, u |-> AllUnits[t]]]
 MCScalars == << MK(2, 1, "int"), MK(1, 2, "float"), MK(2, 1, "Decimal"), MK(-4, 1, "int") >>
+MCUncs == << <<0, 1>>, <<1, 2>>, <<3, 1>>, <<1, 8>> >>
 MCPowers == {-2, -1, 0, 2, 3}
 MCRoots == {2, 3}
 
@@ -59,10 +60,11 @@ MCNext == TLCGet("level") = 1 /\
        \/ \E i \in P, s \in 1..Len(MCScalars), op \in {"nmulq", "qmuln", "qdivn", "ndivq"} : Scalar(op, i, s)
        \/ \E i \in P, t \in 1..NU, op \in {"qmulu", "umulq", "qdivu"} : WithUnit(op, i, t)
        \/ \E i \in P, t \in 1..NU : InUnit(i, t)
+  \/ Group \in {"all", "meas"} /\ \E i \in P, j \in P, s \in 1..Len(MCUncs), t \in 1..Len(MCUncs) : MeasPair(i, j, s, t)
   \/ Group \in {"all", "prefix"} /\ \E t \in 1..NU, b \in BOOLEAN, e \in {-3, 0, 3, 10}, side \in {1, 2} : PrefixOnUnit(t, b, e, side)
 ExportCase == ev.op # "init" => PrintT("@@E " \o ToJson(ev))
 ExportSystem == ev.op = "init" => PrintT("@@SYS " \o ToJson([base |-> BaseSeq, bdim |-> MCbdim, bsize |-> MCbsize,
-                      decls |-> Decls, pool |-> MCPool, units |-> MCUnits, scalars |-> MCScalars]))
+                      decls |-> Decls, pool |-> MCPool, units |-> MCUnits, scalars |-> MCScalars, uncs |-> MCUncs]))
 \* the oracle's own sanity: declared equivalences agree with the size table; laws of the statement hold on the model
 S2Consistent == ev.op = "init" => \A x \in 1..Len(Decls) : LET c == Decls[x] IN
      MCbsize[c.l] = PAdd(<<c.e, 0, 0>>, SumSize(Support(c.r), c.r))
